@@ -2,6 +2,8 @@ import PandoraModel.Properties.C12
 import PandoraModel.Properties.C12Kernels
 import PandoraModel.Properties.C12KernelsBounds
 import PandoraModel.Properties.C12KernelsSampled
+import PandoraModel.Properties.C12Names
+import PandoraModel.Properties.C12KernelsRegul
 open Pandora.C12
 -- tie to the source
 #print axioms stems_from_source
@@ -72,3 +74,20 @@ open Pandora.C12
 #print axioms Pandora.C12Kernels.bounds_bracket_wta_generated
 -- compute_ambiguity_and_sampled_ambiguity regenerated = (pixelAmbiguity, pixelSampled) (Properties/C12KernelsSampled.lean)
 #print axioms Pandora.C12Kernels.computeAmbiguitySampled_generated_eq
+-- the naming glue read from the source, evaluated (Properties/C12Names.lean): indicator = suffix, names = specification, every step name
+#print axioms Pandora.C12Names.evalRule_golden
+#print axioms Pandora.C12Names.pySplit_none_eq
+#print axioms Pandora.C12Names.indicatorOneCut_eq
+#print axioms Pandora.C12Names.indicator_generated_eq_spec
+#print axioms Pandora.C12Names.indicator_unrepaired_eq_model
+#print axioms Pandora.C12Names.stems_lookup
+#print axioms Pandora.C12Names.names_generated_eq_spec
+-- the connection scan of create_connected_graph regenerated = Confidence.connectionGraph (Properties/C12KernelsRegul.lean)
+#print axioms Pandora.C12KernelsRegul.connAct_of
+#print axioms Pandora.C12KernelsRegul.scan_eq
+#print axioms Pandora.C12KernelsRegul.connRow_eq
+#print axioms Pandora.C12KernelsRegul.connectionGraph_generated_eq
+#print axioms Pandora.C12KernelsRegul.closure_step_eq
+#print axioms Pandora.C12KernelsRegul.closeRow_core
+#print axioms Pandora.C12KernelsRegul.createConnectedGraph_generated_eq
+#print axioms Pandora.C12KernelsRegul.intervalRegularization_over_generated
